@@ -287,9 +287,23 @@ class Case:
         return None
 
 
-def run_cases(cases, workers=14):
+RERUNS = {"n": 0}
+
+
+def run_cases(cases, workers=14, confirm=True):
+    """Run all cases in parallel. A case whose transcripts differ is re-run ALONE (up to twice) before
+    anything is concluded from it: a genuine divergence is deterministic and reproduces, a timing
+    artefact of a loaded machine (asynchronous observations are waited for with a bound) does not."""
     with ThreadPoolExecutor(max_workers=workers) as ex:
-        return list(ex.map(lambda c: c.run(), cases))
+        res = list(ex.map(lambda c: c.run(), cases))
+    if confirm:
+        for c in cases:
+            tries = 0
+            while tries < 2 and (c.diff() is not None or any(x in ("TIMEOUT",) or x.startswith("CRASHED") for x in (c.impl or [])[-1:])):
+                tries += 1
+                RERUNS["n"] += 1
+                c.run()
+    return res
 
 
 def shrink(case, still_bad, budget=60):
@@ -405,6 +419,7 @@ class Report:
             cov.update(proof)
         if extra:
             cov.update(extra)
+        cov["serial_reruns_of_differing_cases"] = RERUNS["n"]
         ev = {
             "property_id": self.prop, "tier": self.tier, "seed": self.seed, "level": level,
             "coverage": cov, "assumptions": self.assumptions, "wall_s": round(time.time() - self.t0, 2),
